@@ -20,12 +20,22 @@ def norm(p):
     return p
 
 
+_AS = re.compile(r"^<.* as ([^<>]+)>::([A-Za-z0-9_]+)$")
+
+
 def pm(p, suffix):
-    """does (normalised) path p end with the path suffix (on a `::` boundary)?"""
+    """does (normalised) path p end with the path suffix (on a `::` boundary)?
+    `<T as Trait>::method` also matches the suffix `Trait::method`."""
     if not p:
         return False
     p = norm(p)
-    return p == suffix or p.endswith("::" + suffix) or (suffix.startswith("<") and p.endswith(suffix))
+    if p == suffix or p.endswith("::" + suffix) or (suffix.startswith("<") and p.endswith(suffix)):
+        return True
+    m = _AS.match(p)
+    if m:
+        q = "%s::%s" % (m.group(1), m.group(2))
+        return q == suffix or q.endswith("::" + suffix)
+    return False
 
 
 # ---------------------------------------------------------------- MIR / CFG
